@@ -48,6 +48,8 @@ def scenario(run, rng, pv, idx):
         in_types += [cb.play.CombatEventPacket, cb.play.EndCombatEventPacket,
                      cb.play.EnterCombatEventPacket]
 
+    late_defined = {}
+
     class MyChat(sb.play.ChatPacket):       # user subclass, matched via base
         pass
     out_types = [Packet, AbstractKeepAlivePacket, sb.play.KeepAlivePacket,
@@ -438,8 +440,13 @@ def scenario(run, rng, pv, idx):
             rng.shuffle(plan_out)
             repeated[id(pr)] = 3
             run.count('scenarios_writing_one_object_repeatedly')
+        # a subclass the program defines only now, *after* the listeners have
+        # been registered: matched through its base class like any other
+        class LateChat(MyChat):
+            pass
+        late_defined['cls'] = LateChat
         for j, given in enumerate(plan_out):
-            K = rng.choice((sb.play.ChatPacket, MyChat))
+            K = rng.choice((sb.play.ChatPacket, MyChat, LateChat))
             p = given if given is not None else \
                 K(message='out-%d-%d' % (idx, j))
             force = rng.random() < 0.5
@@ -486,7 +493,8 @@ def scenario(run, rng, pv, idx):
                                 for k, v in config.items()}
             state['phase2'].set()
             for j in range(rng.randrange(1, 4)):
-                K = rng.choice((sb.play.ChatPacket, MyChat))
+                K = rng.choice((sb.play.ChatPacket, MyChat,
+                                late_defined['cls']))
                 p = K(message='late-%d-%d' % (idx, j))
                 force = rng.random() < 0.5
                 sent_out2.append((p, force))
@@ -572,6 +580,7 @@ def scenario(run, rng, pv, idx):
             cb.play.ExplosionPacket)}
         out_cls = {c.__name__: c for c in (
             sb.play.KeepAlivePacket, sb.play.ChatPacket, MyChat,
+            late_defined.get('cls', MyChat),
             sb.login.PluginResponsePacket, sb.handshake.HandShakePacket,
             sb.login.LoginStartPacket)}
         n_checked = 0
